@@ -70,7 +70,11 @@ func (o *Obl) script(header string) string {
 	header = o.fe.eng.headerFor(o.fe, header)
 	sb.WriteString(header)
 	sb.WriteString("; ---- function " + o.Func + "\n")
-	for _, it := range o.fe.items[:o.Pos] {
+	keep := o.fe.slice(o)
+	for i, it := range o.fe.items[:o.Pos] {
+		if keep != nil && !keep[i] {
+			continue
+		}
 		sb.WriteString(it.Text)
 		sb.WriteString("\n")
 	}
@@ -82,6 +86,106 @@ func (o *Obl) script(header string) string {
 	}
 	sb.WriteString("(check-sat)\n")
 	return sb.String()
+}
+
+// slice: cone of influence of an obligation over the items of its function.  Dropping assumptions is always sound; the
+// cone keeps every definition the goal depends on and every assumption that shares a non-hub symbol with it (hubs are the
+// entry-state symbols and parameters, which would otherwise connect everything).
+func (fe *FuncEnc) slice(o *Obl) []bool {
+	n := o.Pos
+	if n < 400 || os.Getenv("VERIF_NOSLICE") != "" {
+		return nil
+	}
+	fe.indexItems()
+	keep := make([]bool, n)
+	cone := map[string]bool{}
+	var work []string
+	add := func(sym string) {
+		if _, ok := fe.defAt[sym]; ok && !cone[sym] {
+			cone[sym] = true
+			work = append(work, sym)
+		}
+	}
+	for _, sy := range symRe.FindAllString(o.Goal.S, -1) {
+		add(sy)
+	}
+	for len(work) > 0 {
+		sy := work[len(work)-1]
+		work = work[:len(work)-1]
+		// definition
+		if i := fe.defAt[sy]; i < n && !keep[i] {
+			keep[i] = true
+			for _, s2 := range fe.items[i].Syms {
+				add(s2)
+			}
+		}
+		if fe.hub[sy] {
+			continue
+		}
+		for _, i := range fe.usedIn[sy] {
+			if i >= n || keep[i] || fe.items[i].Def != "" {
+				continue
+			}
+			keep[i] = true
+			for _, s2 := range fe.items[i].Syms {
+				add(s2)
+			}
+		}
+	}
+	// global facts: assertions over hubs only
+	for i := 0; i < n; i++ {
+		it := fe.items[i]
+		if keep[i] || it.Def != "" {
+			continue
+		}
+		all := true
+		for _, sy := range it.Syms {
+			if !fe.hub[sy] {
+				all = false
+				break
+			}
+		}
+		if all {
+			keep[i] = true
+			for _, sy := range it.Syms {
+				if j := fe.defAt[sy]; j < n {
+					keep[j] = true
+				}
+			}
+		}
+	}
+	return keep
+}
+
+func (fe *FuncEnc) indexItems() {
+	if fe.defAt != nil && fe.indexedN == len(fe.items) {
+		return
+	}
+	fe.defAt = map[string]int{}
+	fe.usedIn = map[string][]int{}
+	fe.hub = map[string]bool{}
+	for i, it := range fe.items {
+		if it.Def != "" {
+			fe.defAt[it.Def] = i
+			if strings.HasPrefix(it.Text, "(declare-const") && (strings.HasSuffix(it.Def, "_0") || strings.HasPrefix(it.Def, "p_")) {
+				fe.hub[it.Def] = true
+			}
+		}
+	}
+	for i := range fe.items {
+		it := &fe.items[i]
+		seen := map[string]bool{}
+		it.Syms = it.Syms[:0]
+		for _, sy := range symRe.FindAllString(it.Text, -1) {
+			if _, ok := fe.defAt[sy]; !ok || seen[sy] || sy == it.Def {
+				continue
+			}
+			seen[sy] = true
+			it.Syms = append(it.Syms, sy)
+			fe.usedIn[sy] = append(fe.usedIn[sy], i)
+		}
+	}
+	fe.indexedN = len(fe.items)
 }
 
 type solveResult struct {
